@@ -70,11 +70,12 @@ type Contract struct {
 	CasesExpr    string   // cases <expr> in lo..hi: the function is verified once per value (a proof-search tactic; coverage is an obligation)
 	CasesLo      int
 	CasesHi      int
-	SplitVars    []Clause // function-level `splitvar`: case split on the skolemised bound variable of quantified ensures (proof search only)
-	BranchSplit  bool     // `branch-split`: an obligation the solvers leave undecided is retried per branch of the enclosing ifs (proof search only)
-	Sequential   bool     // `sequential`: later invariant / ensures clauses may assume earlier ones (each stays an obligation of its own)
-	CasesElse    bool     // `cases e in lo..hi else`: one more run for e outside lo..hi (then no coverage obligation is needed)
-	caseCover    *Clause  // set on the first case run: lo <= expr <= hi follows from the requires
+	SplitVars    []Clause        // function-level `splitvar`: case split on the skolemised bound variable of quantified ensures (proof search only)
+	Inline       map[string]bool // `inline F`: calls of F in this theorem execute F's body instead of using its contract
+	BranchSplit  bool            // `branch-split`: an obligation the solvers leave undecided is retried per branch of the enclosing ifs (proof search only)
+	Sequential   bool            // `sequential`: later invariant / ensures clauses may assume earlier ones (each stays an obligation of its own)
+	CasesElse    bool            // `cases e in lo..hi else`: one more run for e outside lo..hi (then no coverage obligation is needed)
+	caseCover    *Clause         // set on the first case run: lo <= expr <= hi follows from the requires
 	caseNote     string
 	WitnessFrom  map[string]string // witness name -> callee contract that supplies it
 	FreshResult  bool
@@ -342,7 +343,7 @@ func (e *Engine) scanGlobals() {
 var clauseKeywords = map[string]bool{"func": true, "theorem": true, "global": true, "props": true, "requires": true,
 	"ensures": true, "panics": true, "modifies": true, "decreases": true, "yields": true, "loop": true, "invariant": true,
 	"let": true, "split": true, "mode": true, "established-by": true, "thin": true, "trusted": true, "assert": true,
-	"ensures-notrace": true, "modifies-heap": true, "witness": true, "callback": true, "readonly-heap": true, "fresh-result": true, "pure": true, "splitvar": true, "snapshot": true, "snapshot-after": true, "use-lemma": true, "cases": true, "sequential": true, "branch-split": true}
+	"ensures-notrace": true, "modifies-heap": true, "witness": true, "callback": true, "readonly-heap": true, "fresh-result": true, "pure": true, "splitvar": true, "snapshot": true, "snapshot-after": true, "use-lemma": true, "cases": true, "sequential": true, "branch-split": true, "inline": true}
 
 type rawClause struct {
 	kw   string
@@ -509,6 +510,13 @@ func (e *Engine) loadContracts() error {
 						cur.Sequential = true
 					case "branch-split":
 						cur.BranchSplit = true
+					case "inline":
+						if cur.Inline == nil {
+							cur.Inline = map[string]bool{}
+						}
+						for _, f := range strings.Fields(strings.ReplaceAll(rc.text, ",", " ")) {
+							cur.Inline[f] = true
+						}
 					case "cases":
 						txt := strings.TrimSpace(rc.text)
 						if strings.HasSuffix(txt, " else") {
